@@ -399,7 +399,8 @@ func VF_Air_Ceremony() {
 	if vf.Param("nonces") != "" {
 		roundB := "round-b-identifier"
 		if vf.Symbolic() {
-			vf.Injective("schnorr.R") // R = k*G determines the nonce k
+			vf.Injective("schnorr.R")     // R = k*G determines the nonce k
+			vf.Injective("schnorr.nonce") // the stream of a seeded suite does not repeat, different seeds give unrelated streams
 			vf.Injective("sha256")    // stated assumption: SHA-256 is collision-free (the per-round suite seed is sha256(round id || base seed))
 		}
 		nodes[0].vfReopen()
